@@ -202,18 +202,13 @@ class _MCQuad(torch.autograd.Function):
             # derivative of fparams
             dLdthetaf = []
             if len(ftensor_params) > 0:
-                dLdthetaf = torch.autograd.grad(fout, ftensor_params,
-                                                grad_outputs=grad_epf,
-                                                retain_graph=True,
-                                                create_graph=local_grad_enabled)
+                dLdthetaf = _grad_or_zeros(fout, ftensor_params, grad_epf, local_grad_enabled)
             # derivative of pparams
             dLdthetap = []
             if len(ptensor_params) > 0:
                 dLdef = torch.dot((fout - epf).reshape(-1), grad_epf.reshape(-1))
-                dLdthetap = torch.autograd.grad(pout, ptensor_params,
-                                                grad_outputs=dLdef.reshape(pout.shape),
-                                                retain_graph=True,
-                                                create_graph=local_grad_enabled)
+                dLdthetap = _grad_or_zeros(pout, ptensor_params, dLdef.reshape(pout.shape),
+                                           local_grad_enabled)
             # combine the states needed for backward
             outs = (
                 *dLdthetaf,
@@ -245,6 +240,17 @@ class _MCQuad(torch.autograd.Function):
         dLdtp = ctx.pparam_sep.reconstruct_params(dLdthetap, dLdpnontensor)
         return (None, None, None, None, None, None, None, None, None, None, None,
                 *dLdtf, *dLdtp)
+
+def _grad_or_zeros(out, tensor_params, grad_outputs, create_graph):
+    # gradient of out w.r.t. tensor_params, with zeros for the tensors that do not influence out
+    if not out.requires_grad:
+        return tuple(torch.zeros_like(p) for p in tensor_params)
+    grads = torch.autograd.grad(out, tensor_params,
+                                grad_outputs=grad_outputs,
+                                retain_graph=True,
+                                create_graph=create_graph,
+                                allow_unused=True)
+    return tuple(torch.zeros_like(p) if g is None else g for (g, p) in zip(grads, tensor_params))
 
 def _integrate(ffcn, xsamples, wsamples, fparams):
     nsamples = len(xsamples)
